@@ -37,7 +37,7 @@ pub fn verify_oods<Layout: LayoutTrait>(
         constraint_coefficients@.len() == Layout::N_CONSTRAINTS, // [C16,C18:verify-oods-one-coefficient-per-constraint]
         Layout::composition_pre(public_input, trace_domain_size@), // [C18:verify-oods-after-public-input-validation]
     ensures
-        r.is_ok() ==> oods@.len() == Layout::MASK_SIZE + Layout::CONSTRAINT_DEGREE, // [C01,C02:oods-vector-has-exactly-MASK_SIZE+DEGREE-values]
+        r.is_ok() ==> oods@.len() == Layout::MASK_SIZE + Layout::CONSTRAINT_DEGREE, // [C01,C02,C18:oods-vector-has-exactly-MASK_SIZE+DEGREE-values]
         r.is_ok() ==> oods_consistent::<Layout>(fv(oods@), interaction_elements, public_input, fv(constraint_coefficients@), oods_point@, trace_domain_size@, trace_generator@), // [C01,C02:composition-from-trace-equals-claimed-composition-at-the-positions-DEEP-reads]
 {
     proof { Layout::lemma_constants(); }
@@ -101,7 +101,7 @@ pub fn eval_oods_boundary_poly_at_points<Layout: LayoutTrait>(
         eval_info.oods_values@.len() == Layout::MASK_SIZE + Layout::CONSTRAINT_DEGREE,             // [C01,C02:deep-uses-an-oods-vector-of-the-checked-length]
         eval_info.constraint_coefficients@.len() == Layout::MASK_SIZE + Layout::CONSTRAINT_DEGREE, // [C16:deep-one-coefficient-per-opening]
     ensures
-        r@.len() == points@.len(), // [C01,C02,C07:one-fri-input-value-per-query]
+        r@.len() == points@.len(), // [C01,C02,C07,C18:one-fri-input-value-per-query]
         forall|i: int| 0 <= i < points@.len() ==> (#[trigger] r@[i])@ == Layout::oods_poly_spec(public_input,
             deep_row(fv(decommitment.original.values@), fv(decommitment.interaction.values@), fv(composition_decommitment.values@), i,
                      n_original_columns as int, n_interaction_columns as int, Layout::CONSTRAINT_DEGREE as int),
